@@ -186,6 +186,30 @@ pub fn corrupt(rng: &mut Rng, d: &Desc) -> Desc {
     c
 }
 
+/// en-passant squares whose "victim" square holds something else than the enemy pawn (the mover's own king, another
+/// own piece, nothing), with a capturer next to it whose push is blocked so that the capture is the first move tried
+pub fn family_ep_defects(out: &mut Vec<Desc>) {
+    for f in 0..8usize {
+        for victim in [b'K', b'N', b'.', b'n', b'k'] {
+            for side in [-1i32, 1] {
+                let cf = f as i32 + side;
+                if !(0..8).contains(&cf) { continue }
+                for blocked in [true, false] {
+                    let mut d = Desc::empty();
+                    d.ep = Some((40 + f) as u8);
+                    d.pl[32 + f] = victim;
+                    d.pl[(32 + cf) as usize] = b'P';
+                    if blocked { d.pl[(40 + cf) as usize] = b'p' }
+                    if victim != b'K' { d.pl[0] = b'K' }
+                    if victim != b'k' { d.pl[63] = b'k' }
+                    out.push(d.clone());
+                    out.push(d.flipped());
+                }
+            }
+        }
+    }
+}
+
 // ---------- G4: exhaustive small-material families ----------
 const DIRS: [(i32, i32); 8] = [(1, 0), (-1, 0), (0, 1), (0, -1), (1, 1), (1, -1), (-1, 1), (-1, -1)];
 
